@@ -71,6 +71,12 @@ type limbPE struct {
 	tables  map[string][]*big.Int
 	tail    *ast.CallExpr // call of sm2P256ReduceDegree, if met
 	idxBase string        // when non-empty: every tmp index must be idxBase + const (window check)
+	// extensions used by target_sm4code.go (all nil / zero for sm2limbs)
+	bools    map[string]bool            // statically known bool parameters (cryptBlock's decrypt)
+	sliceOf  map[string][2]interface{}  // s := base[lo:hi]  ->  s -> (base name, lo)
+	tblWidth map[string]int             // element width of package tables (default 32)
+	tmpN     *int                       // counter for the temporaries of parallel assignments
+	returned bool
 }
 
 func (pe *limbPE) errf(n ast.Node, f string, a ...interface{}) error {
@@ -85,6 +91,8 @@ func typeWidth(e ast.Expr) (int, int, bool) { // width, array length (0 = scalar
 			return 32, 0, true
 		case "uint64":
 			return 64, 0, true
+		case "uint8", "byte":
+			return 8, 0, true
 		case "sm2P256FieldElement":
 			return 32, 9, true
 		case "sm2P256LargeFieldElement":
@@ -94,6 +102,9 @@ func typeWidth(e ast.Expr) (int, int, bool) { // width, array length (0 = scalar
 		w, l, ok := typeWidth(t.Elt)
 		if !ok || l != 0 {
 			return 0, 0, false
+		}
+		if t.Len == nil {
+			return w, -1, true // slice: the length is supplied by the target
 		}
 		if bl, ok := t.Len.(*ast.BasicLit); ok {
 			var n int
@@ -130,6 +141,10 @@ func (pe *limbPE) staticInt(e ast.Expr) (int64, bool) {
 				return x - y, true
 			case token.MUL:
 				return x * y, true
+			case token.REM:
+				if y != 0 {
+					return x % y, true
+				}
 			}
 		}
 	}
@@ -137,6 +152,16 @@ func (pe *limbPE) staticInt(e ast.Expr) (int64, bool) {
 }
 
 func (pe *limbPE) staticBool(e ast.Expr) (bool, bool) {
+	if id, ok := e.(*ast.Ident); ok && pe.bools != nil {
+		if v, ok := pe.bools[id.Name]; ok {
+			return v, true
+		}
+	}
+	if u, ok := e.(*ast.UnaryExpr); ok && u.Op == token.NOT {
+		if v, ok := pe.staticBool(u.X); ok {
+			return !v, true
+		}
+	}
 	if b, ok := e.(*ast.BinaryExpr); ok {
 		x, ok1 := pe.staticInt(b.X)
 		y, ok2 := pe.staticInt(b.Y)
@@ -166,6 +191,11 @@ func (pe *limbPE) cell(ix *ast.IndexExpr) (string, int, error) {
 		return "", 0, pe.errf(ix, "index of a non-identifier")
 	}
 	name := id.Name
+	off := int64(0)
+	if so, ok := pe.sliceOf[name]; ok {
+		name = so[0].(string)
+		off = so[1].(int64)
+	}
 	if a, ok := pe.alias[name]; ok {
 		name = a
 	}
@@ -193,10 +223,18 @@ func (pe *limbPE) cell(ix *ast.IndexExpr) (string, int, error) {
 	if !ok {
 		return "", 0, pe.errf(ix, "array index of %s is not static", name)
 	}
+	k += off
 	if k < 0 || int(k) >= pe.arrlen[name] {
 		return "", 0, pe.errf(ix, "index %d out of range for %s", k, name)
 	}
 	return fmt.Sprintf("%s_%d", name, k), pe.width[name], nil
+}
+
+func (pe *limbPE) tableWidth(name string) int {
+	if w, ok := pe.tblWidth[name]; ok {
+		return w
+	}
+	return 32
 }
 
 // expression -> (lexpr, width); width 0 = untyped constant
@@ -230,13 +268,13 @@ func (pe *limbPE) expr(e ast.Expr) (lexpr, int, error) {
 					if k < 0 || int(k) >= len(tbl) {
 						return nil, 0, pe.errf(e, "table index out of range")
 					}
-					return lConst{tbl[k]}, 32, nil
+					return lConst{tbl[k]}, pe.tableWidth(id.Name), nil
 				}
 				ie, _, err := pe.expr(t.Index)
 				if err != nil {
 					return nil, 0, err
 				}
-				return lTbl{id.Name, ie}, 32, nil
+				return lTbl{id.Name, ie}, pe.tableWidth(id.Name), nil
 			}
 		}
 		name, w, err := pe.cell(t)
@@ -247,43 +285,73 @@ func (pe *limbPE) expr(e ast.Expr) (lexpr, int, error) {
 	case *ast.CallExpr:
 		if id, ok := t.Fun.(*ast.Ident); ok && len(t.Args) == 1 {
 			switch id.Name {
-			case "uint32", "uint64":
-				to := 32
-				if id.Name == "uint64" {
-					to = 64
-				}
+			case "uint32", "uint64", "uint8", "byte":
+				to := map[string]int{"uint32": 32, "uint64": 64, "uint8": 8, "byte": 8}[id.Name]
 				x, w, err := pe.expr(t.Args[0])
 				if err != nil {
 					return nil, 0, err
 				}
-				if w == 0 || w == to || (w == 32 && to == 64) {
+				if w == 0 || w <= to {
 					return x, to, nil // constants, same width, widening: value unchanged
 				}
 				return lConv{to, x}, to, nil
 			}
-			// inline a pure one-expression function
-			if fd, ok := pe.p.Funcs[id.Name]; ok && fd.Type.Params != nil && len(fd.Type.Params.List) == 1 &&
-				len(fd.Type.Params.List[0].Names) == 1 && len(fd.Body.List) == 1 {
+		}
+		// inline a pure function whose body is a single return expression; constant arguments are bound statically
+		// (so that shift counts such as i % 32 in rl(x, 13) fold), the others are substituted
+		if id, ok := t.Fun.(*ast.Ident); ok {
+			if fd, ok := pe.p.Funcs[id.Name]; ok && fd.Recv == nil && fd.Type.Params != nil && fd.Body != nil && len(fd.Body.List) == 1 {
 				if rs, ok := fd.Body.List[0].(*ast.ReturnStmt); ok && len(rs.Results) == 1 {
-					pw, _, ok := typeWidth(fd.Type.Params.List[0].Type)
-					if !ok {
-						return nil, 0, pe.errf(e, "parameter type of %s", id.Name)
+					sub := &limbPE{p: pe.p, ints: map[string]int64{}, width: map[string]int{}, arrlen: map[string]int{},
+						alias: map[string]string{}, consts: pe.consts, tables: pe.tables, tblWidth: pe.tblWidth}
+					type bind struct {
+						name string
+						e    lexpr
 					}
-					arg, aw, err := pe.expr(t.Args[0])
-					if err != nil {
-						return nil, 0, err
+					var binds []bind
+					ai := 0
+					for _, f := range fd.Type.Params.List {
+						pw, l, ok := typeWidth(f.Type)
+						if !ok || l != 0 {
+							return nil, 0, pe.errf(e, "parameter type of %s", id.Name)
+						}
+						for _, n := range f.Names {
+							if ai >= len(t.Args) {
+								return nil, 0, pe.errf(e, "argument count of %s", id.Name)
+							}
+							arg, aw, err := pe.expr(t.Args[ai])
+							ai++
+							if err != nil {
+								return nil, 0, err
+							}
+							if aw != 0 && aw != pw {
+								return nil, 0, pe.errf(e, "argument width of %s", id.Name)
+							}
+							if c, ok := arg.(lConst); ok && c.v.IsInt64() {
+								sub.ints[n.Name] = c.v.Int64()
+								continue
+							}
+							sub.width[n.Name] = pw
+							binds = append(binds, bind{n.Name, arg})
+						}
 					}
-					if aw != 0 && aw != pw {
-						return nil, 0, pe.errf(e, "argument width of %s", id.Name)
-					}
-					pname := fd.Type.Params.List[0].Names[0].Name
-					sub := &limbPE{p: pe.p, ints: map[string]int64{}, width: map[string]int{pname: pw}, arrlen: map[string]int{},
-						alias: map[string]string{}, consts: pe.consts, tables: pe.tables}
 					body, bw, err := sub.expr(rs.Results[0])
 					if err != nil {
 						return nil, 0, err
 					}
-					return substVar(body, pname, arg), bw, nil
+					// simultaneous substitution: first to unique placeholders, then to the arguments
+					for i, bd := range binds {
+						body = substVar(body, bd.name, lVar{fmt.Sprintf("\x00%d", i)})
+					}
+					for i, bd := range binds {
+						body = substVar(body, fmt.Sprintf("\x00%d", i), bd.e)
+					}
+					if bw == 0 {
+						if rw, _, ok := typeWidth(fd.Type.Results.List[0].Type); ok {
+							bw = rw
+						}
+					}
+					return body, bw, nil
 				}
 			}
 		}
@@ -357,6 +425,8 @@ func (pe *limbPE) expr(e ast.Expr) (lexpr, int, error) {
 			return lBin{"and", l, r, w}, w, nil
 		case token.OR:
 			return lBin{"or", l, r, w}, w, nil
+		case token.XOR:
+			return lBin{"xor", l, r, w}, w, nil
 		}
 		return nil, 0, pe.errf(e, "unsupported operator %s", t.Op)
 	}
@@ -417,6 +487,9 @@ func (pe *limbPE) block(stmts []ast.Stmt, out *[]lstmt, locals map[string]bool) 
 		if pe.tail != nil {
 			return false, pe.errf(s, "statement after the call of sm2P256ReduceDegree")
 		}
+		if pe.returned {
+			return false, pe.errf(s, "statement after return")
+		}
 		switch t := s.(type) {
 		case *ast.DeclStmt:
 			gd, ok := t.Decl.(*ast.GenDecl)
@@ -450,9 +523,78 @@ func (pe *limbPE) block(stmts []ast.Stmt, out *[]lstmt, locals map[string]bool) 
 			} else {
 				pe.ints[id.Name] = v - 1
 			}
+		case *ast.ReturnStmt:
+			pe.returned = true
+			return false, nil
 		case *ast.AssignStmt:
+			if len(t.Lhs) == len(t.Rhs) && len(t.Lhs) > 1 && t.Tok == token.ASSIGN {
+				// parallel assignment: all right-hand sides are evaluated first
+				if pe.tmpN == nil {
+					pe.tmpN = new(int)
+				}
+				var tmps []string
+				for _, r := range t.Rhs {
+					re, _, err := pe.expr(r)
+					if err != nil {
+						return false, err
+					}
+					*pe.tmpN++
+					tn := fmt.Sprintf("par_%d", *pe.tmpN)
+					locals[tn] = true
+					*out = append(*out, lAssign{tn, re})
+					tmps = append(tmps, tn)
+				}
+				for i, l := range t.Lhs {
+					dst, _, err := pe.lvalue(l)
+					if err != nil {
+						return false, err
+					}
+					*out = append(*out, lAssign{dst, lVar{tmps[i]}})
+				}
+				continue
+			}
 			if len(t.Lhs) != 1 || len(t.Rhs) != 1 {
 				return false, pe.errf(s, "multiple assignment")
+			}
+			if id, ok := t.Lhs[0].(*ast.Ident); ok && id.Name == "_" {
+				continue // bounds-check hint  _ = b[3]
+			}
+			if t.Tok == token.DEFINE {
+				if id, ok := t.Lhs[0].(*ast.Ident); ok {
+					// s := base[lo:hi]
+					if se, ok := t.Rhs[0].(*ast.SliceExpr); ok {
+						base, ok1 := se.X.(*ast.Ident)
+						lo, ok2 := pe.staticInt(se.Low)
+						hi, ok3 := pe.staticInt(se.High)
+						if !ok1 || !ok2 || !ok3 || se.Slice3 {
+							return false, pe.errf(s, "unsupported slice expression")
+						}
+						bn := base.Name
+						if a, ok := pe.alias[bn]; ok {
+							bn = a
+						}
+						if l, ok := pe.arrlen[bn]; !ok || lo < 0 || lo > hi || int(hi) > l {
+							return false, pe.errf(s, "slice bounds out of range (Go would panic)")
+						}
+						if pe.sliceOf == nil {
+							pe.sliceOf = map[string][2]interface{}{}
+						}
+						pe.sliceOf[id.Name] = [2]interface{}{bn, lo}
+						continue
+					}
+					// x := make([]T, n)
+					if ce, ok := t.Rhs[0].(*ast.CallExpr); ok {
+						if fn, ok := ce.Fun.(*ast.Ident); ok && fn.Name == "make" && len(ce.Args) == 2 {
+							w, l, ok1 := typeWidth(ce.Args[0])
+							n, ok2 := pe.staticInt(ce.Args[1])
+							if !ok1 || l != -1 || !ok2 {
+								return false, pe.errf(s, "unsupported make")
+							}
+							pe.declare(out, locals, id.Name, w, int(n))
+							continue
+						}
+					}
+				}
 			}
 			// loop variable updates
 			if id, ok := t.Lhs[0].(*ast.Ident); ok {
@@ -502,6 +644,8 @@ func (pe *limbPE) block(stmts []ast.Stmt, out *[]lstmt, locals map[string]bool) 
 				*out = append(*out, lAssign{dst, lBin{"sub", lVar{dst}, rhs, w}})
 			case token.OR_ASSIGN:
 				*out = append(*out, lAssign{dst, lBin{"or", lVar{dst}, rhs, w}})
+			case token.XOR_ASSIGN:
+				*out = append(*out, lAssign{dst, lBin{"xor", lVar{dst}, rhs, w}})
 			case token.AND_ASSIGN:
 				e2, _, err := pe.expr(&ast.BinaryExpr{X: t.Lhs[0], Op: token.AND, Y: t.Rhs[0]})
 				if err != nil {
@@ -608,13 +752,39 @@ func (pe *limbPE) block(stmts []ast.Stmt, out *[]lstmt, locals map[string]bool) 
 				pe.tail = call
 				continue
 			}
+			if id.Name == "copy" && len(call.Args) == 2 {
+				// copy(dst, src): min(len(dst), len(src)) elements
+				dn, ok1 := call.Args[0].(*ast.Ident)
+				sn, ok2 := call.Args[1].(*ast.Ident)
+				if !ok1 || !ok2 {
+					return false, pe.errf(s, "unsupported copy")
+				}
+				d, sname := dn.Name, sn.Name
+				if a, ok := pe.alias[d]; ok {
+					d = a
+				}
+				if a, ok := pe.alias[sname]; ok {
+					sname = a
+				}
+				n := pe.arrlen[d]
+				if pe.arrlen[sname] < n {
+					n = pe.arrlen[sname]
+				}
+				if pe.width[d] != pe.width[sname] || n <= 0 {
+					return false, pe.errf(s, "unsupported copy")
+				}
+				for k := 0; k < n; k++ {
+					*out = append(*out, lAssign{fmt.Sprintf("%s_%d", d, k), lVar{fmt.Sprintf("%s_%d", sname, k)}})
+				}
+				continue
+			}
 			fd, ok := pe.p.Funcs[id.Name]
 			if !ok {
 				return false, pe.errf(s, "call of unknown function %s", id.Name)
 			}
 			// inline: array parameters alias the caller's arrays, scalar parameters are assigned
 			sub := &limbPE{p: pe.p, ints: map[string]int64{}, width: pe.width, arrlen: pe.arrlen, alias: map[string]string{},
-				consts: pe.consts, tables: pe.tables}
+				consts: pe.consts, tables: pe.tables, tblWidth: pe.tblWidth, tmpN: pe.tmpN}
 			ai := 0
 			for _, f := range fd.Type.Params.List {
 				w, l, ok := typeWidth(f.Type)
@@ -624,7 +794,7 @@ func (pe *limbPE) block(stmts []ast.Stmt, out *[]lstmt, locals map[string]bool) 
 				for _, n := range f.Names {
 					arg := call.Args[ai]
 					ai++
-					if l > 0 {
+					if l != 0 {
 						an, ok := arg.(*ast.Ident)
 						if !ok {
 							if u, ok2 := arg.(*ast.UnaryExpr); ok2 && u.Op == token.AND {
@@ -674,8 +844,10 @@ func isIntLit(e ast.Expr) bool {
 // printing
 
 type limbPrinter struct {
-	consts map[string]*big.Int // named big constants
-	tables map[string]bool
+	consts  map[string]*big.Int // named big constants
+	tables  map[string]bool
+	tblName func(string) string // Coq name of a package table (default: gen_tbl_<name>, emitted by the target)
+	letComb string              // if set: "x := e; rest" is printed as  <letComb> e (fun x => rest)  instead of  let x := e in rest
 }
 
 func (lp *limbPrinter) num(v *big.Int) string {
@@ -699,7 +871,11 @@ func (lp *limbPrinter) ex(e lexpr) string {
 		return fmt.Sprintf("(%s mod %s)", lp.ex(t.e), lp.num(pow2(t.width)))
 	case lTbl:
 		lp.tables[t.table] = true
-		return fmt.Sprintf("(nth (N.to_nat %s) gen_tbl_%s 0)", lp.ex(t.idx), t.table)
+		tn := "gen_tbl_" + t.table
+		if lp.tblName != nil {
+			tn = lp.tblName(t.table)
+		}
+		return fmt.Sprintf("(nth (N.to_nat %s) %s 0)", lp.ex(t.idx), tn)
 	case lBin:
 		l, r := lp.ex(t.l), lp.ex(t.r)
 		W := ""
@@ -723,6 +899,8 @@ func (lp *limbPrinter) ex(e lexpr) string {
 			return fmt.Sprintf("(N.land %s %s)", l, r)
 		case "or":
 			return fmt.Sprintf("(N.lor %s %s)", l, r)
+		case "xor":
+			return fmt.Sprintf("(N.lxor %s %s)", l, r)
 		case "lt":
 			return fmt.Sprintf("(%s <? %s)", l, r)
 		case "eq":
@@ -784,6 +962,18 @@ func pat(vs []string) string {
 // `let` and `if` with the result tuple at the leaves - this is what the proofs execute symbolically, path by path.
 func (lp *limbPrinter) body(stmts []lstmt, result []string, ind string) string {
 	var b strings.Builder
+	if lp.letComb != "" {
+		// straight-line code only, every statement as an application of the named combinator (see target_sm4code.go)
+		for _, s := range stmts {
+			t, ok := s.(lAssign)
+			if !ok {
+				panic("letComb: only assignments are supported")
+			}
+			fmt.Fprintf(&b, "%s%s %s (fun %s =>\n", ind, lp.letComb, lp.ex(t.e), t.dst)
+		}
+		fmt.Fprintf(&b, "%s%s%s\n", ind, tuple(result), strings.Repeat(")", len(stmts)))
+		return b.String()
+	}
 	for i, s := range stmts {
 		switch t := s.(type) {
 		case lAssign:
